@@ -2,7 +2,7 @@
 Theorems: coq/Props/C04.v.  Correspondence S4: programs with 1-3 rules  &tel{phi} :- body  (phi over & | ~ > >: >? >* >> ;> ;>:
 n-fold next and keywords) together with facts/choices/other rules over the same atoms, compared at every horizon of one incremental
 run with the temporal stable models computed by Oracle.tsm_enum (full THT_f equivalence, both directions, with multiplicity)."""
-import gen, s4, lang, findings, hdstruct
+import gen, s4, lang, findings, hdstruct, meta
 from props import c01
 
 PROP_FILE = 'Props/C04.v'
@@ -12,6 +12,8 @@ ASSUMPTIONS = ['gringo/clasp contract G1-G6 (DESIGN.md 5.3)',
                'exactness of the head translation (no answer set added, none lost) is a theorem for programs whose rest is splittable (bodies over present and past, heads in the present or future; C04_translation_exact, C04_rules_splittable); next to look-ahead constraints it is covered by the correspondence with the oracle only (a test)', 'symbolic (variable) time ranges of non-ground head formulas are not modelled (C06 / C15 run them)']
 def replay(ctx, payload):
     inp = payload['input']
+    if 'renaming' in inp:
+        return meta.renaming_replay(ctx, payload)
     if 'head_domain' in inp:
         tt = lambda x: tuple(tt(y) for y in x) if isinstance(x, list) else x
         return hdstruct.domain_compare(ctx, [[(p_, [tt(f) for f in els]) for p_, els in inp['head_domain']]])[0]['status'] != 'agree'
@@ -117,6 +119,9 @@ def run(ctx):
     progs = programs(ctx)
     recs = s4.compare(ctx, [p for _, p in progs], H, maxbits, timeout=12)
     res = c01.summarize(ctx, progs, recs, H, maxbits, 'C04')
+    # atoms with arguments in head formulas: the programs with their atoms renamed to atoms with arguments against the programs themselves
+    rcex, rnon = meta.renaming_cex(ctx, [p for _, p in progs if not findings.in_open_class(p, 'C04')][:40 if ctx.quick else 200], 3, 'C04', timeout=60)
+    res['counterexamples'] += rcex
     ops = {}
     for _, p in progs:
         for r in p:
